@@ -677,6 +677,53 @@ func runEngineL(p *Prog, o *obls) {
 		if found == 0 {
 			o.undecided("L1", gs.typ, "-", "anchor unresolved: no gated method found")
 		}
+		// wherever the pop bookkeeping ended up (a shared helper taking a closure, a helper taking the error): no method of
+		// the buffer's type modifies the queue on a branch on which an error is known non-nil
+		queueKey := gs.typ + "." + gs.queueField
+		fmemo := map[*ssa.Function]int{}
+		for _, fn := range p.Funcs {
+			top := fn
+			for top.Parent() != nil {
+				top = top.Parent()
+			}
+			if top.Signature.Recv() == nil || typeKey(deref(top.Signature.Recv().Type())) != gs.typ {
+				continue
+			}
+			instrsOf(fn, func(in ssa.Instruction) {
+				c2, ok := in.(*ssa.Call)
+				if !ok || len(c2.Call.Args) == 0 {
+					return
+				}
+				sc := c2.Call.StaticCallee()
+				if sc == nil || !p.InUniverse(sc) || sc.Signature.Recv() == nil {
+					return
+				}
+				u, ok := p.origin(c2.Call.Args[0]).(*ssa.UnOp)
+				if !ok || u.Op != token.MUL {
+					return
+				}
+				fa, ok := u.X.(*ssa.FieldAddr)
+				if !ok || fieldKeyAddr(fa) != queueKey || !mutatesReceiver(p, sc, 0, fmemo) {
+					return
+				}
+				for _, f := range dominatingFactsInstr(c2) {
+					f = normFact(f)
+					bo, ok := f.cond.(*ssa.BinOp)
+					if !ok || (bo.Op != token.NEQ && bo.Op != token.EQL) || (bo.Op == token.NEQ) != f.truth {
+						continue
+					}
+					var other ssa.Value
+					if isNilConst(bo.Y) {
+						other = bo.X
+					} else if isNilConst(bo.X) {
+						other = bo.Y
+					}
+					if other != nil && isErrorType(other.Type()) {
+						o.bad("L2", funcKey(fn)+":failure-branch", p.instrPos(c2), fmt.Sprintf("%s, which modifies the queue, is called at %s on a branch on which the error tested at %s is non-nil: a pop that fails disturbs the buffer", shortCallee(funcKey(sc)), p.instrPos(c2), p.instrPosV(bo)))
+					}
+				}
+			})
+		}
 	}
 	for _, cs := range clearSpecs {
 		if p.Fixture != strings.HasPrefix(cs.typ, "fixtures/") {
@@ -971,6 +1018,36 @@ func l1l2(p *Prog, o *obls, fn *ssa.Function, gs gateSpec) {
 			}
 			if !guarded {
 				p2 = append(p2, fmt.Sprintf("the playout head is advanced at %s (in %s, called at %s) without the queue call's error being known nil there", p.instrPos(st), funcKey(h), p.instrPos(call)))
+			}
+		})
+		// the same helper must not modify the queue where the error it was handed is known non-nil
+		hmemo := map[*ssa.Function]int{}
+		instrsOf(h, func(in2 ssa.Instruction) {
+			c2, ok := in2.(*ssa.Call)
+			if !ok || len(c2.Call.Args) == 0 {
+				return
+			}
+			sc := c2.Call.StaticCallee()
+			if sc == nil || !p.InUniverse(sc) || sc.Signature.Recv() == nil {
+				return
+			}
+			u, ok := p.origin(c2.Call.Args[0]).(*ssa.UnOp)
+			if !ok || u.Op != token.MUL {
+				return
+			}
+			fa, ok := u.X.(*ssa.FieldAddr)
+			if !ok || fieldKeyAddr(fa) != queueKey || !mutatesReceiver(p, sc, 0, hmemo) {
+				return
+			}
+			for i, q := range h.Params {
+				if !isErrorType(q.Type()) || p.nilnessAt(q, c2.Block()) != 1 || i >= len(call.Call.Args) {
+					continue
+				}
+				for _, qc := range qcalls {
+					if fe := errExtract(qc); fe != nil && p.origin(call.Call.Args[i]) == ssa.Value(fe) {
+						p2 = append(p2, fmt.Sprintf("%s, which modifies the queue, is called at %s (in %s) where the error of the pop at %s is known non-nil: a pop for a number that is not buffered disturbs the buffer", shortCallee(funcKey(sc)), p.instrPos(c2), funcKey(h), p.instrPos(qc)))
+					}
+				}
 			}
 		})
 	})
